@@ -406,6 +406,77 @@ def battery_history_sizes(seed, consts):
     return None
 
 
+def battery_receiver_history(seed):
+    """'whatever operation history produced the point' / hidden per-object state (flags, memoised encodings, cached forms):
+    ONE Point object is the receiver of two producers in a row - every ordered pair of {decode, copy of the generator /
+    identity, SetExtendedCoordinates with Z != 1, Add, Negate, ScalarBaseMult, ScalarMult} - and is then read with Bytes,
+    BytesMontgomery, Equal and ExtendedCoordinates -> SetExtendedCoordinates -> Bytes; every reading is compared with the
+    stateless oracle for the value the second producer must have left"""
+    rng = random.Random(seed)
+    P = ref.P
+    pts = [q for q in bank(rng, 6) if q[0] * q[1] % P != 0][:4]
+    A, B2 = pts[0], pts[1]
+
+    def fe(v):
+        return (v % P).to_bytes(32, "little").hex()
+
+    def mont(q):
+        y = q[1]
+        return (0 if y == 1 else (1 + y) * ref.inv(1 - y) % P).to_bytes(32, "little").hex()
+    k1 = rng.randrange(1, L)
+    lam = rng.randrange(2, P)
+    C = pts[2]
+    prods = [
+        ("setbytes", 'v.SetBytes(hx("%s"))' % ref.ed_encode(pts[3]).hex(), pts[3]),
+        ("generator", "v.Set(NewGeneratorPoint())", ref.BASE),
+        ("identity", "v.Set(NewIdentityPoint())", (0, 1)),
+        ("setext", 'v.SetExtendedCoordinates(el("%s"), el("%s"), el("%s"), el("%s"))' % (fe(C[0] * lam), fe(C[1] * lam), fe(lam), fe(C[0] * C[1] * lam)), C),
+        ("add", 'v.Add(pt("%s"), pt("%s"))' % (ref.ed_encode(A).hex(), ref.ed_encode(B2).hex()), ref.ed_add(A, B2)),
+        ("negate", 'v.Negate(pt("%s"))' % ref.ed_encode(A).hex(), ref.ed_neg(A)),
+        ("basemult", 'v.ScalarBaseMult(sc("%s"))' % k1.to_bytes(32, "little").hex(), ref.ed_mul(k1, ref.BASE)),
+        ("scalarmult", 'v.ScalarMult(sc("%s"), pt("%s"))' % (k1.to_bytes(32, "little").hex(), ref.ed_encode(B2).hex()), ref.ed_mul(k1, B2)),
+    ]
+    cases = []
+    for n1, c1, _ in prods:
+        for n2, c2, w2 in prods:
+            cases.append('{"%s then %s", func(v *Point) { %s; %s }, "%s", "%s"},' % (n1, n2, c1, c2, ref.ed_encode(w2).hex(), mont(w2)))
+    code = '''package edwards25519
+import ("testing"; "encoding/hex"; "filippo.io/edwards25519/field")
+func hx(s string) []byte { b, _ := hex.DecodeString(s); return b }
+func el(s string) *field.Element { e, _ := new(field.Element).SetBytes(hx(s)); return e }
+func pt(s string) *Point { p, err := new(Point).SetBytes(hx(s)); if err != nil { panic(err) }; return p }
+func sc(s string) *Scalar { x, err := new(Scalar).SetCanonicalBytes(hx(s)); if err != nil { panic(err) }; return x }
+type rh struct { name string; f func(v *Point); enc, mont string }
+func TestVerif(t *testing.T) {
+ cases := []rh{
+%s
+ }
+ for _, c := range cases {
+  v := new(Point)
+  c.f(v)
+  if got := hex.EncodeToString(v.Bytes()); got != c.enc { t.Fatalf("HIT one receiver, %%s: Bytes = %%s, expected %%s", c.name, got, c.enc) }
+  if got := hex.EncodeToString(v.Bytes()); got != c.enc { t.Fatalf("HIT one receiver, %%s: second Bytes = %%s, expected %%s", c.name, got, c.enc) }
+  if got := hex.EncodeToString(v.BytesMontgomery()); got != c.mont { t.Fatalf("HIT one receiver, %%s: BytesMontgomery = %%s, expected %%s", c.name, got, c.mont) }
+  if v.Equal(pt(c.enc)) != 1 || pt(c.enc).Equal(v) != 1 { t.Fatalf("HIT one receiver, %%s: not Equal to the expected point", c.name) }
+  X, Y, Z, T := v.ExtendedCoordinates()
+  w, err := new(Point).SetExtendedCoordinates(X, Y, Z, T)
+  if err != nil || hex.EncodeToString(w.Bytes()) != c.enc { t.Fatalf("HIT one receiver, %%s: ExtendedCoordinates do not reproduce the point (err=%%v)", c.name, err) }
+  u := NewGeneratorPoint()
+  if _, err := u.SetExtendedCoordinates(X, Y, Z, T); err != nil || hex.EncodeToString(u.Bytes()) != c.enc { t.Fatalf("HIT %%s exported and imported into a used receiver: wrong point (err=%%v)", c.name, err) }
+  n := new(Point).Negate(v); n.Negate(n)
+  if hex.EncodeToString(n.Bytes()) != c.enc { t.Fatalf("HIT one receiver, %%s: double negation encodes differently", c.name) }
+ }
+}
+''' % "\n".join(cases)
+    rc, out = native.go_test(code)
+    if rc != 0:
+        hit = [l_ for l_ in out.splitlines() if "HIT " in l_]
+        if hit:
+            return dict(what=hit[0].split("HIT ", 1)[1][:400], op="receiver history")
+        raise RuntimeError("receiver history battery did not run: " + out[-600:])
+    return None
+
+
 def battery_history_after_panic(seed):
     """'identical output no matter what was computed before' where the earlier call *panicked* (documented misuse, recovered
     by the caller) or failed: in one process, a multi-scalar call with an uninitialized point at a late index / mismatched
@@ -509,10 +580,16 @@ func TestVerif(t *testing.T) {
    if !bytes.Equal(in, cur) { t.Fatalf("HIT Point.SetBytes modified its input") }
    // scalar setters on the same strings (SetCanonicalBytes only for canonical values)
    v := new(big.Int).SetBytes(rev(cur))
+   // an earlier result that the caller went on to modify must not influence a later call on the same bytes
+   cl1, _ := new(Scalar).SetBytesWithClamping(in); keep := append([]byte{}, cl1.Bytes()...); cl1.Add(cl1, cl1); cl1.Multiply(cl1, cl1)
+   cl2, _ := new(Scalar).SetBytesWithClamping(append([]byte{}, in...))
+   if !bytes.Equal(cl2.Bytes(), keep) { t.Fatalf("HIT Scalar.SetBytesWithClamping(%%x) called again after the first result was modified by its owner: %%x, first time %%x", cur, cl2.Bytes(), keep) }
+   if p != nil && err == nil { pk := append([]byte{}, p.Bytes()...); p.Add(p, p); p2, e2 := new(Point).SetBytes(append([]byte{}, cur...)); if e2 != nil || !bytes.Equal(p2.Bytes(), pk) { t.Fatalf("HIT Point.SetBytes(%%x) called again after the first result was modified by its owner", cur) } }
    s, err2 := new(Scalar).SetCanonicalBytes(in)
    if (v.Cmp(l) < 0) != (err2 == nil) { t.Fatalf("HIT Scalar.SetCanonicalBytes(%%x) err=%%v in a sequence of related inputs (same buffer: %%d)", cur, err2, c.reuse) }
    if err2 == nil && !bytes.Equal(s.Bytes(), cur) { t.Fatalf("HIT Scalar.SetCanonicalBytes(%%x) = %%x in a sequence of related inputs (same buffer: %%d)", cur, s.Bytes(), c.reuse) }
    wide := make([]byte, 64); copy(wide, in); copy(wide[32:], in)
+   sw0, _ := new(Scalar).SetUniformBytes(wide); sw0.Add(sw0, sw0)
    sw, _ := new(Scalar).SetUniformBytes(wide)
    vw := new(big.Int).SetBytes(rev(wide)); vw.Mod(vw, l)
    if new(big.Int).SetBytes(rev(sw.Bytes())).Cmp(vw) != 0 { t.Fatalf("HIT Scalar.SetUniformBytes(%%x) wrong in a sequence of related inputs", wide) }
